@@ -11,7 +11,7 @@ import (
 
 // runtimePanic raises a Go-level run-time panic inside the interpreted program.
 func (fr *frame) runtimePanic(msg string) {
-	panic(&goPanic{val: fr.g.w.prog.runtimeError(msg), site: fr.site(), msg: "runtime error: " + msg, runtime: true})
+	panic(&goPanic{val: fr.g.w.prog.runtimeError(msg), site: fr.stableSite(), msg: "runtime error: " + msg, runtime: true})
 }
 
 func (fr *frame) binop(op token.Token, t types.Type, x, y Value) Value {
@@ -290,7 +290,7 @@ func (fr *frame) equal(t types.Type, x, y Value) Value {
 			return mkBool(false)
 		}
 		if !types.Comparable(xi.T) {
-			panic(&goPanic{val: fr.g.w.prog.runtimeError("comparing uncomparable type " + xi.T.String()), site: fr.site(), msg: "runtime error: comparing uncomparable type " + xi.T.String(), runtime: true})
+			panic(&goPanic{val: fr.g.w.prog.runtimeError("comparing uncomparable type " + xi.T.String()), site: fr.stableSite(), msg: "runtime error: comparing uncomparable type " + xi.T.String(), runtime: true})
 		}
 		return fr.equal(xi.T, xi.V, yi.V)
 	case KOpaque:
